@@ -893,52 +893,76 @@ class Gen:
         self.call(ep, 'push_stream', sid=st.sid, promised=promised, headers=hs)
 
     def _op_rsv(self, ep, e, trk, live):
-        """Settings that change while a promised stream is still reserved: the client moves INITIAL_WINDOW_SIZE or
-        MAX_FRAME_SIZE, the server then uses the pushed stream up to the new limits."""
+        """A scripted history around a promised stream that is still reserved: the client changes INITIAL_WINDOW_SIZE
+        or MAX_FRAME_SIZE (and the change is acknowledged) between the promise and the pushed response, which then
+        uses the stream up to the new limits."""
         rng = self.rng
-        if e.client:
-            if not any(st.state == 'rsvR' for st in live):
-                return
-            if trk.acks_received == 0 and 'F-ACK-INITIAL' in self.avoid:
-                return
-            if rng.random() < 0.5:
-                vals = [0, 3, 100, 1024, 65535, 100000, 2 ** 20]
-                if self.P['windows'] == 'small':
-                    vals = [0, 3, 100, 1024, 65535]
-                d = {C.S_INITIAL_WINDOW_SIZE: rng.choice(vals)}
-            else:
-                d = {C.S_MAX_FRAME_SIZE: rng.choice([16384, 16385, 32768, 65536])}
-            self.call(ep, 'update_settings', settings=d)
+        w = self.w
+        c, s_ = w.eps['c'], w.eps['s']
+        ct, stt = c.trk, s_.trk
+        if ct.closed or stt.closed or self.halted or self.silent:
             return
-        rsv = [st for st in live if st.state == 'rsvL' and st.sent in (NONE, INFO)]
+        if ct.acks_received == 0 and 'F-ACK-INITIAL' in self.avoid:
+            return
+        if not stt.peer.get(C.S_ENABLE_PUSH, 1):
+            return
+        kind = rng.choice(['iws', 'iws', 'mfs'])
+        if kind == 'mfs' and rng.random() < 0.7:
+            # (so that there is something to lower again)
+            self.call('c', 'update_settings', settings={C.S_MAX_FRAME_SIZE: rng.choice([32768, 65536])})
+            self.settle()
+        rsv = [st for st in stt.streams.values() if st.state == 'rsvL' and st.sent in (NONE, INFO)]
         if not rsv:
-            return self._op_push(ep, e, trk, live)
-        st = rng.choice(rsv)
-        lim = trk.peer.get(C.S_MAX_CONCURRENT_STREAMS)
-        if lim is not None and trk.count_open(True) >= lim:
+            live_s = [x for x in stt.streams.values() if x.state != 'closed']
+            self._op_push('s', s_, stt, live_s)
+            self.settle()
+            rsv = [st for st in stt.streams.values() if st.state == 'rsvL' and st.sent in (NONE, INFO)]
+        if not rsv or self.halted or ct.closed or stt.closed:
             return
-        if self._no_body(trk, st):
-            return self._op_respond(ep, e, trk, live)
-        mf = self._max_frame(trk)
-        hs = self.hg[ep].response(max_frame=mf, status='200')
-        if rng.random() < 0.4:
+        st = rng.choice(rsv)
+        if ct.get(st.sid) is None or ct.get(st.sid).state != 'rsvR':
+            return
+        if kind == 'iws':
+            vals = [0, 3, 100, 1024, 65535, 100000, 2 ** 20]
+            if self.P['windows'] == 'small':
+                vals = [0, 3, 100, 1024, 65535]
+            d = {C.S_INITIAL_WINDOW_SIZE: rng.choice(vals)}
+        else:
+            d = {C.S_MAX_FRAME_SIZE: rng.choice([16384, 16384, 16385, 32768])}
+        self.call('c', 'update_settings', settings=d)
+        if rng.random() < 0.85:
+            self.settle()
+        if self.halted or ct.closed or stt.closed:
+            return
+        lim = stt.peer.get(C.S_MAX_CONCURRENT_STREAMS)
+        if lim is not None and stt.count_open(True) >= lim:
+            return
+        if self._no_body(stt, st):
+            return
+        mf = self._max_frame(stt)
+        hs = self.hg['s'].response(max_frame=mf, status='200')
+        if kind == 'mfs' or rng.random() < 0.2:
             size = rng.choice([mf - 50, mf + 1, 16385, 20000, 33000])
-            lim_ = trk.peer.get(C.S_MAX_HEADER_LIST_SIZE)
+            lim_ = stt.peer.get(C.S_MAX_HEADER_LIST_SIZE)
             cur = sum(len(h[0]) + len(h[1]) + 32 for h in hs)
-            if (lim_ is None or size + cur + 200 < lim_) and size + cur + 200 < 60000:
+            if (lim_ is None or size + cur + 200 < lim_) and size + cur + 200 < 60000 and size > 0:
                 as_bytes = bool(hs) and isinstance(hs[0][0], bytes)
                 v = ''.join(rng.choice('abcdefghijklmnopqrstuvwxyz0123456789') for _ in range(48)) * (size // 48 + 1)
                 hs = list(hs) + [(b'x-big', v[:size].encode()) if as_bytes else ('x-big', v[:size])]
-        s_ = self.call(ep, 'send_headers', sid=st.sid, headers=hs, es=False)
-        if s_ is None or not s_.ok or self.halted:
+        r_ = self.call('s', 'send_headers', sid=st.sid, headers=hs, es=False)
+        if r_ is None or not r_.ok or self.halted:
             return
-        st2 = trk.get(st.sid)
-        if st2 is None:
-            return
-        room = min(trk.conn_send, st2.send_win, self._max_frame(trk))
-        if room > 0:
-            n = rng.choice([room, room, max(room - 1, 0), min(room, 100)])
-            self.call(ep, 'send_data', sid=st.sid, data=b'p' * n, es=rng.random() < 0.3, pad=None)
+        for _ in range(rng.choice([1, 2, 6])):
+            st2 = stt.get(st.sid)
+            if st2 is None or st2.state not in ('open', 'hcR') or self.halted:
+                return
+            room = min(stt.conn_send, st2.send_win, self._max_frame(stt))
+            if room <= 0:
+                break
+            n = rng.choice([room, room, max(room - 1, 1), min(room, 100)])
+            self.call('s', 'send_data', sid=st.sid, data=b'p' * n, es=False, pad=None)
+            if rng.random() < 0.5:
+                self.settle()
 
     def _op_prio(self, ep, e, trk, live):
         rng = self.rng
@@ -1247,8 +1271,7 @@ class Gen:
             # trailers without END_STREAM / response-ish headers at the wrong time
             if st is None or st.state not in ('open', 'hcR') or st.sent != FINAL:
                 return
-            if not fsm_ok:
-                return
+            # (refused after the state machine has been asked, and rolled back since fix 5deac66: a plain refusal)
             self.call(ep, 'send_headers', sid=sid, headers=hg.trailers(mf), es=False)
         elif k == 13:
             # valid-looking headers on a valid stream but an invalid list
@@ -1352,7 +1375,7 @@ class Gen:
                 self.call(ep, 'open_outbound_streams')
             elif k == 3 and st is None:
                 self.call(ep, 'local_flow_control_window', sid=sid)
-            elif k == 4 and not e.client and self.fsm_misuse:
+            elif k == 4 and not e.client and (self.fsm_misuse or self.P.get('aftermath_fsm')):
                 self.call(ep, 'advertise_alternative_service', field=b'h2=":443"', sid=sid)
             elif k == 5 and e.client:
                 self._op_open(ep, e, trk, live)      # the next request (does the refused one still count as open?)
